@@ -102,6 +102,9 @@ impl PartialOrd for Duration {
 
 pub uninterp spec fn now_spec() -> int;
 
+/// largest representable instant (i64::MAX seconds, in ns)
+pub open spec fn instant_max() -> int { 0x7FFF_FFFF_FFFF_FFFFint * 1_000_000_000int }
+
 /// tokio::time::Instant (re-exported as actix_rt::time::Instant): a point on a ghost clock
 #[verifier::external_body]
 #[derive(Clone, Copy)]
@@ -114,7 +117,7 @@ impl Instant {
     /// the duration of one verified call (assumption A-CLOCK); nothing relates it to earlier calls.
     #[verifier::external_body]
     pub fn now() -> (r: Instant)
-        ensures r.t() == now_spec(),
+        ensures r.t() == now_spec(), 0 <= r.t() <= 0x4000_0000_0000_0000,   // the clock is ~centuries away from the end of the representable range
     { unimplemented!() }
 
     #[verifier::external_body]
@@ -145,7 +148,8 @@ impl PartialOrd for Instant {
 }
 impl vstd::std_specs::ops::AddSpecImpl<Duration> for Instant {
     open spec fn obeys_add_spec() -> bool { false }
-    open spec fn add_req(self, rhs: Duration) -> bool { true }
+    /// std/tokio `Instant + Duration` PANICS on overflow: the sum must stay representable
+    open spec fn add_req(self, rhs: Duration) -> bool { self.t() + rhs.ns() <= instant_max() }
     uninterp spec fn add_spec(self, rhs: Duration) -> Instant;
 }
 impl core::ops::Add<Duration> for Instant {
